@@ -439,6 +439,12 @@ func (pc *PartitionContext) removeApplication(appID string) []*objects.Allocatio
 					zap.String("allocationKey", currentAllocationKey),
 					zap.String("nodeID", alloc.GetNodeID()))
 			}
+			// an inflight replacement on a different node has already been added to that node: remove it too
+			if release := alloc.GetRelease(); alloc.IsPlaceholder() && release != nil && release.GetNodeID() != alloc.GetNodeID() {
+				if releaseNode := pc.GetNode(release.GetNodeID()); releaseNode != nil {
+					releaseNode.RemoveAllocation(release.GetAllocationKey())
+				}
+			}
 		}
 	}
 	return allocations
